@@ -110,7 +110,7 @@ def encode(c):
 
 
 def distribution(cases):
-    d = dict(groups={}, ops_hist={}, op_kinds={}, obs_kinds={}, found_sizes={}, lru={}, malformed_filters=0, filters=0)
+    d = dict(groups={}, ops_hist={}, op_kinds={}, obs_kinds={}, found_sizes={}, lru={})
     for c in cases:
         d["groups"][c["grp"]] = d["groups"].get(c["grp"], 0) + 1
         if c["grp"] == "split":
